@@ -37,10 +37,12 @@ def parseFlags (s : String) : UOpts :=
     `-` is the empty list; the typed fields of the messages are separated by `;` (one group per message). -/
 def listOf (sep : String) (s : String) : List String := if s == "-" || s == "" then [] else s.splitOn sep
 def showList (l : List String) : String := if l.isEmpty then "-" else ",".intercalate l
-def deptabAnswer (enums msgs deps methods : String) : String :=
+def deptabAnswer (enums msgs deps exts methods : String) : String :=
   let fieldDeps := if deps == "-" then [] else (deps.splitOn ";").map (fun g => if g == "" then [] else g.splitOn ",")
   let ms := (listOf "," methods).map (fun m => match m.splitOn ">" with | [a, b] => (a, b) | _ => (m, m))
-  let t := Pulsar.Gen.typeTables (listOf "," enums) (listOf "," msgs) fieldDeps ms
+  -- an extension is `extendee` or `extendee:typeName`
+  let xs : List (String × Option String) := (listOf "," exts).map (fun x => match x.splitOn ":" with | [a, b] => (a, some b) | _ => (x, none))
+  let t := Pulsar.Gen.typeTables (listOf "," enums) (listOf "," msgs) fieldDeps xs ms
   "ok " ++ showList t.goTypes ++ " " ++ showList (t.deps.map toString) ++ " " ++ showList (t.offsets.map toString)
 
 /-- answer of the `features` / `param` commands (formats documented at the top of Pulsar/Gen.lean) -/
@@ -157,7 +159,8 @@ def step (st : St) (line : String) : St × String :=
          | .error _ => "err")
   | ["goname", n] => (st, Gen.goFieldName n)
   | ["msgindex", forest, fullname] => (st, msgindexAnswer forest fullname)
-  | ["deptab", enums, msgs, deps, methods] => (st, deptabAnswer enums msgs deps methods)
+  | ["deptab", enums, msgs, deps, methods] => (st, deptabAnswer enums msgs deps "-" methods)
+  | ["deptab", enums, msgs, deps, exts, methods] => (st, deptabAnswer enums msgs deps exts methods)
   | ["flatten", forest] =>
     (st, match Gen.parseTops forest with
          | some tops => "ok " ++ ",".intercalate ((Gen.allMessages tops).map Gen.dotted)
